@@ -91,6 +91,8 @@ type c04State struct {
 	engine  interpreter.Engine // non-nil: one engine value re-used for every verification of the run
 	simple  *unlocker.Simple   // non-nil: one unlocker object re-keyed for every signature of the run
 	getter  *unlocker.Getter   // non-nil: one library getter re-keyed per locking script (wallet style)
+	// withScripts: verifications pass WithScripts next to WithTx
+	withScripts bool
 }
 
 var c04Flags = []byte{0x41, 0x42, 0x43, 0xc1, 0xc2, 0xc3, 0x01, 0x02, 0x03, 0x81, 0x82, 0x83}
@@ -224,6 +226,10 @@ func (s *c04State) verifierCopy() *bt.Tx {
 // verify executes input i against the presented spent output.
 func (s *c04State) verify(tx *bt.Tx, i int, value uint64, script []byte, flag byte) (bool, string) {
 	opts := []interpreter.ExecutionOptionFunc{interpreter.WithTx(tx, i, &bt.Output{Satoshis: value, LockingScript: scriptPtr(script)}), interpreter.WithAfterGenesis()}
+	if s.withScripts && i < len(tx.Inputs) && tx.Inputs[i].UnlockingScript != nil {
+		// a caller that names the scripts explicitly as well (they must match what the transaction carries)
+		opts = append(opts, interpreter.WithScripts(scriptPtr(script), scriptPtr(*tx.Inputs[i].UnlockingScript)))
+	}
 	if flag&0x40 != 0 {
 		opts = append(opts, interpreter.WithForkID())
 	}
@@ -368,6 +374,7 @@ func (w *c04World) Run(c *kernel.RunCtx) {
 			_ = catch(func() { _ = s.engine.Execute(interpreter.WithScripts(one, one), interpreter.WithAfterGenesis()) })
 		}
 	}
+	s.withScripts = c.Bool(1, 3)
 	if c.Bool(1, 2) {
 		s.simple = &unlocker.Simple{}
 		s.getter = &unlocker.Getter{}
@@ -642,6 +649,14 @@ func (w *c04World) tamper(s *c04State) string {
 			return ""
 		}
 		j := c.Choose(len(tx.Inputs))
+		if len(tx.Inputs) > 1 && c.Bool(1, 4) {
+			// another input now names exactly the same outpoint (only the signatures that cover the
+			// outpoint list are affected)
+			k := (j + 1 + c.Choose(len(tx.Inputs)-1)) % len(tx.Inputs)
+			tx.Inputs[j].PreviousTxOutIndex = tx.Inputs[k].PreviousTxOutIndex
+			_ = tx.Inputs[j].PreviousTxIDAdd(append([]byte(nil), tx.Inputs[k].PreviousTxID()...))
+			return fmt.Sprintf("Tamper(outpoint of input %d := outpoint of input %d)", j, k)
+		}
 		if c.Bool(1, 2) {
 			tx.Inputs[j].PreviousTxOutIndex ^= 1 << uint(c.Choose(32))
 		} else {
@@ -709,10 +724,15 @@ func (w *c04World) tamperPresentation(s *c04State) string {
 		return fmt.Sprintf("Present(wrong value,input %d)", i)
 	}
 	sc := append([]byte(nil), u.script...)
-	if c.Bool(1, 2) {
+	switch c.Pick(2, 2, 2) {
+	case 0:
 		sc = append(sc, 0x61) // trailing OP_NOP: the P2PKH template still runs, the script code differs
-	} else {
+	case 1:
 		sc[3+c.Choose(20)] ^= 1 << uint(c.Choose(8))
+	default:
+		// the same program with the key-hash push re-encoded non-minimally (OP_PUSHDATA1 0x14): it executes
+		// identically, but the script code — which every hash type commits to — is a different byte string
+		sc = append(append(append([]byte(nil), sc[:2]...), 0x4c), sc[2:]...)
 	}
 	// (legacy SINGLE without a matching output commits to nothing, not even the script code)
 	want := stillValid && bytes.Equal(models.Projection(m, i, md.flag, u.value, sc), md.proj)
